@@ -217,6 +217,9 @@ func (h *harness) fireBoth(stream string, idx int, src string, e *env, ev *engin
 		h.violation("worker-lost", fmt.Sprintf("the pool has %d workers after the event, %d were configured", fr.workers, e.workers), stream, idx, src, detail(fr))
 		return
 	}
+	// a sink may have started an independent cascade (addEvent with a scope):
+	// AddEventAndWait does not wait for that one
+	e.quiesce()
 	before := e.rec.count("s2")
 	fr2 := e.fire(engine.NewEvent("e2", []string{"c06", "y"}, map[interface{}]interface{}{}))
 	after := e.rec.count("s2")
